@@ -308,7 +308,7 @@ def stepSol (s : Sol) (e : GEdge) : Sol := ⟨s.edges ++ [e], e.dst, s.cost + e.
 
 /-- `e` can be appended to `s` -/
 def canStep (g : List GEdge) (s : Sol) (e : GEdge) : Prop :=
-  e ∈ g ∧ e.src = s.cur ∧ validNext s.edges e.seg = true
+  e ∈ g ∧ e.src = s.cur ∧ validNext s.edges e = true
 
 theorem mem_extend_of_canStep {g : List GEdge} {s : Sol} {e : GEdge} (h : canStep g s e) :
     stepSol s e ∈ extend g s := by
